@@ -19,7 +19,7 @@ from concurrent.futures import ThreadPoolExecutor
 from pathlib import Path
 from typing import Any, Callable, Iterable
 
-VERIF = Path("/verif")
+VERIF = Path(__file__).resolve().parent.parent  # location independent: works from any worktree of /verif
 COQ = VERIF / "coq"
 BUILD = VERIF / "build"
 REPO = Path("/repo")
@@ -116,8 +116,7 @@ class Check:
         self.discharged = 0
         self.axioms: list[str] = []
         self.lines: list[str] = []
-        kf = json.loads((VERIF / "known_findings.json").read_text())
-        self.known = {f["id"]: f for f in kf["findings"] if f["property"] == pid and f.get("status") == "open"}
+        self.known = load_known(pid)
         self.workdir = BUILD / "corr" / pid
         self.workdir.mkdir(parents=True, exist_ok=True)
         for f in self.workdir.glob("*"):
@@ -277,7 +276,7 @@ class Check:
             rc = 1
         self.cov.update({
             "obligations": self.obligations, "discharged": self.discharged,
-            "checker_cmd": f"make -C /verif/coq Properties/{self.pid}.vo (coqc 8.16.1, full .vo) + Print Assumptions",
+            "checker_cmd": f"make -C coq Properties/{self.pid}.vo (coqc 8.16.1, full .vo) + Print Assumptions",
             "trusted_base": trusted_base, "rule": rule, "axioms_reported": self.axioms,
             "known_findings_reproduced": sorted(self.known_hits),
             "broken": [f"{b['kind']}:{b['name']}" for b in self.broken],
@@ -306,6 +305,15 @@ class Check:
             self.cov["samples"].append(x)
 
 
+def load_known(pid: str) -> dict[str, dict]:
+    """open findings of one property from known_findings/<pid>.json (committed, never written at run time)"""
+    f = VERIF / "known_findings" / f"{pid}.json"
+    if not f.exists():
+        return {}
+    kf = json.loads(f.read_text())
+    return {x["id"]: x for x in kf.get("findings", []) if x.get("status") == "open"}
+
+
 def tail(s: str, n: int = 25) -> str:
     return "\n".join(s.strip().splitlines()[-n:])
 
@@ -323,12 +331,22 @@ def enclosing_lemma(path: Path, line: int) -> str | None:
 
 
 def ensure_makefile() -> None:
-    mk = COQ / "Makefile"
+    """_CoqProject is generated from the .v files present (so adding a file needs no shared edit)."""
+    files = sorted(str(p.relative_to(COQ)) for d in ("Gen", "Lib", "Corr", "Model", "Proofs", "Properties")
+                   for p in (COQ / d).glob("*.v"))
+    text = ("-Q . PG\n-arg -w -arg -notation-overridden,-deprecated-hint-without-locality,"
+            "-deprecated-instance-without-locality\n" + "\n".join(files) + "\n")
     cp = COQ / "_CoqProject"
-    if not mk.exists() or mk.stat().st_mtime < cp.stat().st_mtime:
+    mk = COQ / "Makefile"
+    if not cp.exists() or cp.read_text() != text or not mk.exists():
+        cp.write_text(text)
         rc, out = sh(["coq_makefile", "-f", "_CoqProject", "-o", "Makefile"], cwd=COQ)
         if rc != 0:
             raise RuntimeError(out)
+
+
+if __name__ == "__main__":
+    ensure_makefile()
 
 
 def load_corpus(pid: str) -> list[dict]:
